@@ -28,6 +28,8 @@ import time
 import traceback
 
 VERIF = os.path.dirname(os.path.dirname(os.path.abspath(__file__)))
+REPO = os.path.abspath(os.environ.get("VERIF_REPO", "/repo"))
+OUT = os.environ.get("VERIF_OUT", VERIF)  # where evidence/ and replays/ are written
 MASK = (1 << 64) - 1
 MAX_KEPT_PER_SIG = 3
 
@@ -212,15 +214,15 @@ def load_known():
 
 def tree_identity():
     try:
-        head = subprocess.run(["git", "-C", "/repo", "rev-parse", "HEAD"], capture_output=True, text=True).stdout.strip()
-        diff = subprocess.run(["git", "-C", "/repo", "diff", "HEAD", "--", "dataiter"], capture_output=True).stdout
+        head = subprocess.run(["git", "-C", REPO, "rev-parse", "HEAD"], capture_output=True, text=True).stdout.strip()
+        diff = subprocess.run(["git", "-C", REPO, "diff", "HEAD", "--", "dataiter"], capture_output=True).stdout
         return {"head": head, "diff_sha1": hashlib.sha1(diff).hexdigest() if diff else None}
     except Exception:
         return {}
 
 
 def write_replay(check_id, n, violation):
-    d = os.path.join(VERIF, "replays")
+    d = os.path.join(OUT, "replays")
     os.makedirs(d, exist_ok=True)
     path = os.path.join(d, f"{check_id}-{n:04d}.json")
     with open(path, "w") as f:
@@ -229,7 +231,7 @@ def write_replay(check_id, n, violation):
 
 
 def clean_replays(check_id):
-    d = os.path.join(VERIF, "replays")
+    d = os.path.join(OUT, "replays")
     if os.path.isdir(d):
         for name in os.listdir(d):
             if name.startswith(check_id + "-"):
@@ -248,8 +250,8 @@ def run_check(check_id, tier, seed):
     t0 = time.time()
     mod = load_check(check_id)
     import dataiter
-    if not os.path.abspath(dataiter.__file__).startswith("/repo/"):
-        raise InfraError(f"dataiter imported from {dataiter.__file__}, not /repo")
+    if not os.path.abspath(dataiter.__file__).startswith(REPO + os.sep):
+        raise InfraError(f"dataiter imported from {dataiter.__file__}, not {REPO}")
     if hasattr(mod, "prepare"):
         try:
             mod.prepare(tier)
@@ -336,6 +338,16 @@ def run_check(check_id, tier, seed):
             lines.append(f"KNOWN-FINDING: property={check_id} {e['what_fails']} [{counts[sig]} case(s)]")
             matched.append({"signature": sig, "cases": counts[sig]})
             continue
+        # Re-execute the smallest case before reporting it: the same case must fail the same way,
+        # otherwise some nondeterminism was not captured and nothing about it can be believed.
+        if os.environ.get("VERIF_NO_RECHECK") != "1":
+            probe = Rec(check_id, mod)
+            try:
+                mod.check_case(vs[0]["case"], probe)
+            except Exception as e:
+                raise InfraError(f"re-execution of a violating case raised {type(e).__name__}: {e} (signature {sig})")
+            if sig not in probe.vcount:
+                raise InfraError(f"violation did not reproduce on re-execution (uncaptured nondeterminism?): {sig}; got {sorted(probe.vcount)}")
         nviol += counts[sig]
         nrep += 1
         path = write_replay(check_id, nrep, vs[0])
@@ -380,8 +392,8 @@ def run_check(check_id, tier, seed):
         "wall_s": round(wall, 3),
         "violations": nviol,
     }
-    os.makedirs(os.path.join(VERIF, "evidence"), exist_ok=True)
-    path = os.path.join(VERIF, "evidence", f"{check_id}.json")
+    os.makedirs(os.path.join(OUT, "evidence"), exist_ok=True)
+    path = os.path.join(OUT, "evidence", f"{check_id}.json")
     tmp = path + ".tmp"
     with open(tmp, "w") as f:
         json.dump(evidence, f, indent=1, default=repr)
